@@ -3,12 +3,13 @@
 CONSTANTS
   N = 3
   NI = 2
+  NK = 2
   MaxClock = 6
   Retention = 2
   T = 2
   MaxCas = 8
   MaxFaults = 2
-  LiveStates = {"ACTIVE", "LEAVING"}
+  LiveStates = {"ACTIVE", "LEAVING", "PENDING"}
   WatchNodes = {1, 2, 3}
   HoldNodes = {1}
   AllowRestart = TRUE
@@ -18,6 +19,7 @@ CONSTANTS
   GateNodes = {}
   InboxCap = 1
   VersionTest = TRUE
+  KeyTest = TRUE
   MaxDel = 2
   ObsoleteTimeout = 2
   ConsumeNet = FALSE
